@@ -20,6 +20,7 @@ import (
 //	        (thorough 5) over one representative symbol per code length (all bit alignments of the
 //	        32-bit flush), against the reference encoder and through the real decoder.
 func partHuffman(h *harness) {
+	ev.Journal("P4 Huffman enumeration")
 	var k int64
 	mine := func() bool { k++; return int(k%int64(h.of)) == h.shard }
 
@@ -100,7 +101,13 @@ func partHuffman(h *harness) {
 			decodeOne(buf)
 		}
 	}
-	h.rep.Sample(map[string]any{"part": "P4", "huffman_input_hex": "ff ff ff fc (one of all 4-octet strings starting ff)", "decode_vs_reference": true})
+	if h.shard == 0 {
+		for _, v := range [][]byte{{0xff, 0xff, 0xff, 0xfc}, {0x1f}} {
+			got, err := hpack.HuffmanDecodeToString(v)
+			want, why := hpackref.HuffmanDecode(v)
+			h.rep.Sample(map[string]any{"part": "P4 decode", "huffman_input_hex": hx(v), "real": map[string]any{"string": got, "error": fmt.Sprint(err)}, "reference": map[string]any{"string": want, "must_reject_because": why}})
+		}
+	}
 
 	// encoder
 	encodeOne := func(s string) {
@@ -200,5 +207,8 @@ func partHuffman(h *harness) {
 			}
 		}
 	}
-	h.rep.Sample(map[string]any{"part": "P4", "symbols_hex": "0a16 (two 30-bit codes)", "encode_vs_reference_and_back": true})
+	if h.shard == 0 {
+		sym := "\x0a\x16"
+		h.rep.Sample(map[string]any{"part": "P4 encode", "symbols_hex": hx([]byte(sym)), "real_hex": hx(hpack.AppendHuffmanString(nil, sym)), "reference_hex": hx(hpackref.HuffmanEncode(sym))})
+	}
 }
